@@ -71,26 +71,39 @@ func (e *Engine) VerifyFunction(fn *ssa.Function, genPanics bool) (u *Unit, err 
 		// never returns normally (e.g. always panics)
 		return u, nil
 	}
-	exit := res.st
 	if c != nil {
-		env := u.contractEnv(fn, fr.params, res.vals, exit, entry)
-		for _, cl := range c.Clauses {
-			if cl.Kind != "ensures" || !cl.visible(e.prop) {
-				continue
+		// one obligation per clause and return site (no merged states in the goals)
+		multi := len(res.rets) > 1
+		for _, site := range res.rets {
+			exit := site.st
+			suffix := ""
+			if multi {
+				suffix = fmt.Sprintf("@ret%d", site.ord)
 			}
-			t, err := env.EvalBool(cl.Expr)
-			if err != nil {
-				u.errs = append(u.errs, fmt.Sprintf("%s ensures %s: %v", name, cl.Label, err))
-				continue
+			env := u.contractEnv(fn, fr.params, site.vals, exit, entry)
+			for _, cl := range c.Clauses {
+				if cl.Kind != "ensures" || !cl.visible(e.prop) {
+					continue
+				}
+				t, err := env.EvalBool(cl.Expr)
+				if err != nil {
+					u.errs = append(u.errs, fmt.Sprintf("%s ensures %s: %v", name, cl.Label, err))
+					continue
+				}
+				o := u.oblige(exit, "ensures", name, cl.Label, fmt.Sprintf("contracts:%d", cl.Line), t, cl.Tags)
+				u.applyKF(env, o, suffix)
+				o.Name += suffix
 			}
-			o := u.oblige(exit, "ensures", name, cl.Label, fmt.Sprintf("contracts:%d", cl.Line), t, cl.Tags)
-			u.applyKF(env, o)
-		}
-		if !c.Inline {
-			u.frameObligations(fn, c, fr, entry, exit)
-			for _, g := range []string{"epoch", "vepoch"} {
-				if !c.mentionsGhost(g) {
-					u.oblige(exit, "modifies", name, "ghost_"+g+"_unchanged", fmt.Sprintf("contracts:%d", c.Line), Eq(u.comp(exit, g), u.comp(entry, g)), nil)
+			if !c.Inline {
+				n0 := len(u.obls)
+				u.frameObligations(fn, c, fr, entry, exit)
+				for _, g := range []string{"epoch", "vepoch"} {
+					if !c.mentionsGhost(g) {
+						u.oblige(exit, "modifies", name, "ghost_"+g+"_unchanged", fmt.Sprintf("contracts:%d", c.Line), Eq(u.comp(exit, g), u.comp(entry, g)), nil)
+					}
+				}
+				for _, o := range u.obls[n0:] {
+					o.Name += suffix
 				}
 			}
 		}
@@ -100,7 +113,7 @@ func (e *Engine) VerifyFunction(fn *ssa.Function, genPanics bool) (u *Unit, err 
 
 // applyKF: if the obligation is a recorded known finding, check it in its
 // restricted form and remember that the unrestricted form is expected to fail.
-func (u *Unit) applyKF(env *SEnv, o *Obligation) {
+func (u *Unit) applyKF(env *SEnv, o *Obligation, suffix string) {
 	if u.eng.kf == nil {
 		return
 	}
@@ -117,7 +130,7 @@ func (u *Unit) applyKF(env *SEnv, o *Obligation) {
 		}
 		// unrestricted twin (expected to fail)
 		twin := *o
-		twin.Name = o.Name + "!unrestricted"
+		twin.Name = o.Name + suffix + "!unrestricted"
 		twin.KFWhat = f.What
 		u.obls = append(u.obls, &twin)
 		o.Goal = Implies(r, o.Goal)
